@@ -47,6 +47,32 @@ CHECKS = {
         'That jump_params(x) equals the density of the actual draw is NOT proved (and numerically false by 2%: open finding).',
    technique='Lean 4 proof (min-ratio swap lemma, positivity of truncated Gaussians via strict monotonicity of erf) + differential correspondence',
    design='5/C05'),
+ 'C06': dict(
+   text='Theorems over the reals for every current state, every width and every stream of normal/uniform draws: each redraw loop returns '
+        'the first in-range draw m + s z of the stream (structural half of the proposal law); every shift proposal lies in the domain '
+        '(|gamma|<=pi/6, |delta|<=pi/2, 0<=kappa<2pi, 0<=h<=1, |sigma|<=pi/2); a double-couple chain proposes gamma=delta=0; the balancing '
+        'draw lies on the lune; a model jump keeps strike, dip cosine and slip, gives an exact double-couple going down and an in-range '
+        'source type going up, and happens iff u <= jump probability. Width adaptation: for EVERY sequence of window rates in [0,1] every '
+        'width stays positive and below its maximum, no key is lost and the balancing widths are carried unchanged. Tie: '
+        '_new_sample_single (single-try and trans-dimensional) under replayed draw streams, conversion to a unit tensor, and '
+        '_modify_acceptance_rate over exhaustive rate-class sequences vs the executable model. Partial: the distributional half of '
+        '"proposals follow the truncated Gaussian" is a KS test.',
+   note=TB + 'np.random is replaced by prepared streams during a call; reflecting options and the crack+DC proposal are not modelled. Repeated '
+        'zero-rate windows square the ratio: positivity is over the reals (floating-point underflow after ~10 such windows is not modelled).',
+   technique='Lean 4 proof (stream-consuming samplers, invariant over all rate sequences) + differential correspondence; KS test for the law',
+   design='5/C06'),
+ 'C07': dict(
+   text='Theorems for EVERY accept/reject history (any learning length, window, chain length; single- and multiple-try events): nothing is '
+        'recorded during learning; afterwards the chain has one entry per tried proposal plus the first state held once more '
+        '(|chain| = tried + 1), a rejection repeats the current state, an acceptance at index u repeats it u times then records the new '
+        'state, accepted grows by one per acceptance, the DC count equals the number of DC entries, every entry is the start state or an '
+        'accepted proposal with its own likelihood token, a DC-constrained run records only DCs, the run stops exactly when tried reaches '
+        'the chain length (single-try: tried = C, C+1 entries). Tie: real iterate()/output() of four sampler classes driven through '
+        'exhaustive histories up to length 7 and random ones to 400, random and grid initialisation, vs the executable model. Partial: that '
+        'the chain samples the posterior follows from C05 and C06 by the standard MH argument and is tested, not proved.',
+   note=TB + 'Outcomes are steered through the log-likelihoods given to iterate(); sources/likelihoods are opaque tokens in the model.',
+   technique='Lean 4 proof (inductive invariant of the run state machine over all event lists) + event-history correspondence',
+   design='5/C07'),
  'C09': dict(
    text='Refinement proof for every history of batches (any sizes incl. 0, exact fits and several increments): the concrete store '
         '(pre-allocated array, fill index, growth loop) represents exactly the non-zero candidates of all batches in order, each with its '
